@@ -23,7 +23,7 @@ var (
 	ShapeIDs   = []string{"", "10", "9", "Sh", "sh2"}
 	TripIDs    = []string{"", "T1", "t2", "t3", "10", "9"}
 	BlockIDs   = []string{"", "b1", "B2"}
-	Bads       = []string{"", "abc", "12:xx:00", "2024-01-01", "1.5x", "--", "12a"}
+	Bads       = []string{"", "abc", "12:xx:00", "2024-01-01", "1.5x", "--", "12a", "08:10:00:00", "1:2:3:4:5", ":::", "99999999999999999999"}
 )
 
 // Dec is a decimal fraction token: its CSV text and the float64 the text denotes (the Go compiler converts
